@@ -781,7 +781,8 @@ def estimate_symbolic_duration(
         j = find_nearest(COMPOSITE_DURS, qdur)
         if np.abs(qdur - COMPOSITE_DURS[j]) < eps:
             if return_com_durations:
-                return copy.copy(SYM_COMPOSITE_DURS[j])
+                # the parts are dicts of the module-level table: hand out copies
+                return tuple(sd.copy() for sd in SYM_COMPOSITE_DURS[j])
             else:
                 warnings.warn(
                     f"Quarter duration {qdur} from {dur}/{div} is a composite"
